@@ -652,7 +652,9 @@ func main() {
 	o.Rule("generated (disk, payload, handler) triples: payloads add / change / re-send / (apply_flows) remove files of the " +
 		"five configuration places, with undecodable base64, undecodable JSON, wrong HTTP method, contents failing " +
 		"validation, contents failing the metrics reload, file names leaving their directory (../x, ../../outside/x, a/../../x, onto a " +
-		"sibling directory, onto the gateway file, onto an existing outside file, the directory itself), odd names that stay " +
+		"sibling directory, onto the gateway file, onto an existing outside file, the directory itself, into a sibling of the directory " +
+		"whose name has the directory's name as a string prefix -- ../flows-disabled/x.yaml, ../quotas-old/q.yaml, ../path_params.bak/p.yaml, " +
+		"../flows.bak -- existing or not, in updates refused later and in otherwise fine ones), odd names that stay " +
 		"inside (sub/x, ./x, a/../x, /abs/x, ..x), names that make a file of a directory or a directory of a file (a name that is a " +
 		"sub-directory of the disk, a name below an existing file, one and two levels deep, names of one payload that are " +
 		"prefixes of each other); each triple is " +
@@ -727,6 +729,13 @@ func (s *sut) runCase(o *c.Out, k *Case) {
 	for _, l := range k.Landings {
 		if !l.StaysIn {
 			o.Count(fmt.Sprintf("escaping_name_status=%d", k.Status))
+			break
+		}
+	}
+	for _, l := range k.Landings {
+		// not below the directory, yet the directory's path is a string prefix of the landing path
+		if d := s.dirOf(l.Src); !l.StaysIn && strings.HasPrefix(filepath.Join(s.L.box, l.Path), d) && filepath.Join(s.L.box, l.Path) != d {
+			o.Count(fmt.Sprintf("sibling_prefix_name_status=%d", k.Status))
 			break
 		}
 	}
